@@ -1,5 +1,6 @@
 import EupsModel.Lemmas.FsEff
 import EupsModel.Lemmas.FsTab
+import EupsModel.Lemmas.FsEffForms
 /-! C08 — an interrupted update never corrupts or loses existing declarations.  Property theorems only
 (model: `Model/FsEff.lean`, helper lemmas: `Lemmas/FsEff.lean`).
 
@@ -131,6 +132,68 @@ example :
                                              (.main (.cfile 0 0), .complete (.chain [⟨0, 0, false⟩]))] }
     (effects {} fs (.declare 0 1 0 (some 0) false)).length = 9 ∧
     RPath.vfile 0 0 ∉ targets fs (.declare 0 1 0 (some 0) false) := by decide
+
+/-! ## Old or new without the hypothesis: exactly what a kill can show
+
+`C08_record_atomic_partial` excludes commands that re-assign a tag (`retag`).  The two theorems below need no such
+hypothesis and together say exactly what every record can look like after a kill: every record other than the chain
+record of the tag being assigned is old or new (`C08_record_atomic_other`); that chain record shows, for every flavor,
+the old assignment, or the new one, or — the D11 gap — nothing for the declaring flavor and the old assignment for
+every other flavor (`C08_tag_chain_forms`).  The third form is the class predicate of the open finding D11. -/
+
+/-- **Old or new for every record but the re-assigned tag's chain record** (full; repaired writers, well-formed
+state, every command — tag moves included —, every crash point). -/
+theorem C08_record_atomic_other (fs : Fs) (hwf : WF fs) (c : Cmd) (k : Nat) (r : RPath)
+    (hr : ∀ p v f tag force t, c = .declare p v f tag force → declareTag fs p f tag = some t → r ≠ .cfile p t) :
+    FsEff.read (crashAt { atomic := true } fs c k) r = FsEff.read fs r ∨
+    FsEff.read (crashAt { atomic := true } fs c k) r = FsEff.read (final { atomic := true } fs c) r := by
+  obtain ⟨j, _, h⟩ := commit_points (steps fs c) fs hwf.noTmp k
+  have hfin : final { atomic := true } fs c = applySteps fs (steps fs c) := expandAll_net _ fs hwf.noTmp
+  unfold FsEff.read
+  rw [hfin]
+  unfold crashAt effects
+  rw [h r]
+  have hc : cnt r (steps fs c) ≤ 1 := by
+    cases c with
+    | declare p v f tag force =>
+      exact cnt_steps_declare fs p v f tag force r (fun t ht => hr p v f tag force t rfl ht)
+    | untag t p f v => exact cnt_steps_untag fs t p f v r
+    | undeclare p v f => exact cnt_steps_undeclare fs hwf.nodup p v f r
+    | undeclareAny p f =>
+      simp only [steps]
+      cases soleVersion fs p f with
+      | none => simp [cnt]
+      | some v =>
+        have := cnt_steps_undeclare fs hwf.nodup p v f r
+        simpa only [steps] using this
+  rcases single_writer r _ hc fs j with e | e
+  · left; rw [e]
+  · right; rw [e]
+
+/-- **The chain record of the tag a `declare` assigns** (full; repaired writers, well-formed state, no hypothesis on
+the command): at every crash point a reader finds in it, for every flavor `g`, either what was there before, or the
+new assignment `f ↦ v` beside the old assignments of the other flavors, or no assignment for `f` beside the old
+assignments of the other flavors.  `cview s p t g` = the version the chain record of `(p, t)` assigns to flavor `g` in
+state `s`. -/
+theorem C08_tag_chain_forms (fs : Fs) (hwf : WF fs) (p v f : Id) (tag : Option Id) (force : Bool) (t : Id)
+    (htag : declareTag fs p f tag = some t) (k : Nat) :
+    (∀ g, cview (crashAt { atomic := true } fs (.declare p v f tag force) k) p t g = cview fs p t g) ∨
+    (∀ g, cview (crashAt { atomic := true } fs (.declare p v f tag force) k) p t g
+        = if g = f then some v else cview fs p t g) ∨
+    (∀ g, cview (crashAt { atomic := true } fs (.declare p v f tag force) k) p t g
+        = if g = f then none else cview fs p t g) := by
+  obtain ⟨j, _, h⟩ := commit_points (steps fs (.declare p v f tag force)) fs hwf.noTmp k
+  have := declare_chain_forms fs p v f tag force t htag j
+  exact forms_congr fs p t f v _ _ (by unfold crashAt effects; exact h (.cfile p t)) this
+
+/-- The third form occurs and is neither the old nor the new record: the state and command of
+`C08_tagmove_gap_witness`, killed after the first effect. -/
+example :
+    let fs : Fs := { dirs := [0], files := [(.main (.vfile 0 0), .complete (.ver [⟨0, false⟩])),
+                                             (.main (.vfile 0 1), .complete (.ver [⟨0, false⟩])),
+                                             (.main (.cfile 0 0), .complete (.chain [⟨0, 0, false⟩]))] }
+    let c : Cmd := .declare 0 1 0 (some 0) false
+    cview fs 0 0 0 = some 0 ∧ cview (crashAt {} fs c 1) 0 0 0 = none ∧ cview (final {} fs c) 0 0 0 = some 1 := by decide
 
 /-! ## Database-held table files (`Model/FsTab.lean`)
 
